@@ -405,6 +405,28 @@ fn gen_c09(seed: u64, _index: u64, tier: Tier) -> ServerPlan {
                     what = "self-pointer in question name".into();
                 }
             }
+            5 => {
+                // other pointer games in the question name (offset 12): a label and
+                // then a pointer back to that label; a pointer into the middle of the
+                // name; a forward pointer; two pointers pointing at each other
+                let mut msg = bytes[..12.min(bytes.len())].to_vec();
+                if msg.len() == 12 {
+                    msg[4] = 0;
+                    msg[5] = 1;
+                    let shape = r.below(5);
+                    let name: Vec<u8> = match shape {
+                        0 => vec![1, b'a', 0xC0, 12],
+                        1 => vec![3, b'w', b'w', b'w', 1, b'a', 0xC0, 16],
+                        2 => vec![1, b'a', 0xC0, 40],
+                        3 => vec![0xC0, 14, 0xC0, 12],
+                        _ => vec![2, b'a', b'b', 0xC0, 13],
+                    };
+                    msg.extend_from_slice(&name);
+                    msg.extend_from_slice(&[0, 1, 0, 1]);
+                    bytes = msg;
+                    what = format!("pointer game {shape} in question name");
+                }
+            }
             _ => {}
         }
         let mut m = MsgPlan {
